@@ -1,6 +1,8 @@
 import SwiftMT.Lemmas.Amount
 import SwiftMT.Spec.Iso4217
 import SwiftMT.Fields.Simple
+import SwiftMT.Lemmas.Prim
+import SwiftMT.Lemmas.RoundTrip
 /-
 C06 — monetary amounts and rates are accepted only as decimals and preserved exactly.  Property theorems only.
 Values are exact decimals; the f64 the library stores in between is outside the model (assumption: decimal → f64 →
@@ -282,5 +284,176 @@ theorem balance_accepted (s : Text) (v : Balance) (h : Balance.parse s = .ok v) 
 example : (CcyAmt.parse true "USD1000,5".toList).isOk = true := by decide
 example : (CcyAmt.parse true "JPY1000,5".toList).isOk = false := by decide
 example : (Balance.parse "C240315KWD1000,123".toList).isOk = true := by decide
+
+/-! ### The written amount denotes the number that was read (field level)
+
+`normalize` only drops trailing fraction zeros (the value stays the same), it leaves no more decimals than the text had
+significant ones, so the serialiser's precision `p` of the currency is enough and `format_then_parse_same_value` applies:
+what an amount-bearing field writes back is read as exactly the number that was accepted. -/
+
+theorem normAux_eqv (m s : Nat) : (normAux m s).eqv ⟨m, s⟩ := by
+  induction s generalizing m with
+  | zero => simp [normAux, Dec.eqv]
+  | succ k ih =>
+    unfold normAux
+    split
+    · rename_i h
+      have hm : m % 10 = 0 := by simpa using h
+      have hk := ih (m / 10)
+      simp only [Dec.eqv] at hk ⊢
+      have hmd : m / 10 * 10 = m := by omega
+      calc (normAux (m / 10) k).mant * 10 ^ (k + 1)
+          = (normAux (m / 10) k).mant * 10 ^ k * 10 := by rw [Nat.pow_succ, Nat.mul_assoc]
+        _ = m / 10 * 10 ^ (normAux (m / 10) k).scale * 10 := by rw [hk]
+        _ = m / 10 * 10 * 10 ^ (normAux (m / 10) k).scale := by
+            rw [Nat.mul_assoc, Nat.mul_comm (10 ^ _) 10, ← Nat.mul_assoc]
+        _ = m * 10 ^ (normAux (m / 10) k).scale := by rw [hmd]
+    · simp [Dec.eqv]
+
+theorem normalize_eqv (d : Dec) : d.normalize.eqv d := normAux_eqv d.mant d.scale
+
+theorem normAux_scale_le (m s : Nat) : (normAux m s).scale ≤ s := by
+  induction s generalizing m with
+  | zero => simp [normAux]
+  | succ k ih =>
+    unfold normAux
+    split
+    · exact Nat.le_succ_of_le (ih _)
+    · exact Nat.le_refl _
+
+theorem digitVal_zero : digitVal '0' = some 0 := by decide
+
+/-- normalising strips at least the trailing `0` characters of the fraction that was written -/
+theorem normalize_scale_le_trimmed (ip fr : Text) :
+    (normAux (digitsVal (ip ++ fr) 0) fr.length).scale ≤ (trimZeros fr).length := by
+  generalize hn : fr.length = n
+  induction n generalizing fr with
+  | zero =>
+    have : fr = [] := List.eq_nil_of_length_eq_zero hn
+    subst this
+    simp [normAux, trimZeros, trimEndChar]
+  | succ k ih =>
+    rcases List.eq_nil_or_concat fr with he | ⟨fr', c, he⟩
+    · subst he; simp at hn
+    · rw [List.concat_eq_append] at he
+      subst he
+      have hk : fr'.length = k := by simpa using hn
+      by_cases hc : c = '0'
+      · subst hc
+        have hv : digitsVal (ip ++ (fr' ++ ['0'])) 0 = 10 * digitsVal (ip ++ fr') 0 := by
+          rw [← List.append_assoc, digitsVal_append_single, digitVal_zero]; simp
+        rw [hv]
+        unfold normAux
+        have h0 : (10 * digitsVal (ip ++ fr') 0 % 10 == 0) = true := by simp
+        simp only [h0, if_true]
+        have hd : 10 * digitsVal (ip ++ fr') 0 / 10 = digitsVal (ip ++ fr') 0 := by omega
+        rw [hd]
+        have ht : trimZeros (fr' ++ ['0']) = trimZeros fr' := by
+          unfold trimZeros; exact trimEndChar_snoc '0' fr'
+        rw [ht]
+        exact ih fr' hk
+      · have ht : trimZeros (fr' ++ [c]) = fr' ++ [c] := by
+          unfold trimZeros
+          apply trimEndChar_noop
+          simp [hc]
+        rw [ht]
+        have := normAux_scale_le (digitsVal (ip ++ (fr' ++ [c])) 0) (k + 1)
+        simpa [hk] using this
+
+theorem sigDecimals_ge_normalize (a : Text) (d : Dec) (h : parseAmount a = some d) : d.normalize.scale ≤ sigDecimals a := by
+  unfold parseAmount at h
+  unfold sigDecimals
+  cases hs : splitAmount a with
+  | none => simp [hs] at h
+  | some p =>
+    obtain ⟨ip, ofr⟩ := p
+    cases ofr with
+    | none =>
+      simp only [hs] at h
+      cases h
+      simp [Dec.normalize, normAux]
+    | some fr =>
+      simp only [hs] at h
+      cases h
+      exact normalize_scale_le_trimmed ip fr
+
+/-- **Value preserved by the amount-bearing fields**: whatever amount text a currency-carrying field accepted, the text
+its serialiser writes for it (the normalised value at the currency's precision) is read as exactly the same number. -/
+theorem written_amount_is_the_same_number (a ccy : Text) (d : Dec) (h : parseAmountWithCurrency a ccy = some d) :
+    ∃ d', parseAmount (formatAmount d.normalize (currencyDecimals ccy)) = some d' ∧ d'.eqv d := by
+  obtain ⟨h1, _, h3⟩ := decimals_and_length_respected a ccy d h
+  have hs : d.normalize.scale ≤ currencyDecimals ccy := Nat.le_trans (sigDecimals_ge_normalize a d h3) h1
+  obtain ⟨d', hp, he⟩ := format_then_parse_same_value d.normalize (currencyDecimals ccy) hs
+  refine ⟨d', hp, ?_⟩
+  -- eqv is transitive through the normalised value
+  have hn := normalize_eqv d
+  simp only [Dec.eqv] at he hn ⊢
+  -- d'.m * 10^n.s = n.m * 10^d'.s ;  n.m * 10^d.s = d.m * 10^n.s   ⊢  d'.m * 10^d.s = d.m * 10^d'.s
+  have hpos : 0 < 10 ^ d.normalize.scale := Nat.pow_pos (by omega)
+  apply Nat.eq_of_mul_eq_mul_right hpos
+  calc d'.mant * 10 ^ d.scale * 10 ^ d.normalize.scale
+      = (d'.mant * 10 ^ d.normalize.scale) * 10 ^ d.scale := by simp [Nat.mul_assoc, Nat.mul_comm, Nat.mul_left_comm]
+    _ = (d.normalize.mant * 10 ^ d'.scale) * 10 ^ d.scale := by rw [he]
+    _ = (d.normalize.mant * 10 ^ d.scale) * 10 ^ d'.scale := by simp [Nat.mul_assoc, Nat.mul_comm, Nat.mul_left_comm]
+    _ = (d.mant * 10 ^ d.normalize.scale) * 10 ^ d'.scale := by rw [hn]
+    _ = d.mant * 10 ^ d'.scale * 10 ^ d.normalize.scale := by simp [Nat.mul_assoc, Nat.mul_comm, Nat.mul_left_comm]
+
+theorem parseCurrency_value (t c : Text) (h : parseCurrency t = .ok c) : c = t ∧ t.length = 3 := by
+  unfold parseCurrency at h
+  split at h; · cases h
+  rename_i hb
+  split at h; · cases h
+  rename_i hup
+  cases h
+  refine ⟨rfl, ?_⟩
+  have hu : t.all Char.isUpper = true := by simpa using hup
+  have hasc : isAsciiT t = true := by
+    unfold isAsciiT; rw [List.all_eq_true]; intro x hx
+    exact alnum_ascii x (by simp [Char.isAlphanum, Char.isAlpha, (List.all_eq_true.mp hu) x hx])
+  have hbl : blen t = 3 := by simpa using hb
+  rw [blen_ascii _ hasc] at hbl
+  exact hbl
+
+theorem pcnc_value (t c : Text) (h : parseCurrencyNonCommodity t = .ok c) : c = t ∧ t.length = 3 := by
+  unfold parseCurrencyNonCommodity at h
+  cases hp : parseCurrency t with
+  | ok c0 =>
+    simp only [hp] at h
+    split at h
+    · cases h
+    · cases h; exact parseCurrency_value t _ hp
+  | err => simp [hp] at h
+  | panic => simp [hp] at h
+
+/-- the same for the field models: 32B / 33B / 71F / 71G -/
+theorem ccyAmt_value_preserved (pos : Bool) (s : Text) (v : CcyAmt) (h : CcyAmt.parse pos s = .ok v) :
+    ∃ d', parseAmount ((CcyAmt.ser v).drop 3) = some d' ∧ d'.eqv v.amt := by
+  unfold CcyAmt.parse at h
+  split at h; · cases h
+  split at h; · cases h
+  split at h
+  · rename_i ccy hcc
+    split at h
+    · rename_i d hd
+      cases h
+      obtain ⟨_, hlen⟩ := pcnc_value _ _ hcc
+      have hcl : ccy.length = 3 := by rw [(pcnc_value _ _ hcc).1]; exact hlen
+      unfold amountPart at hd
+      split at hd; · cases hd
+      split at hd
+      · rename_i d0 hp
+        split at hd
+        · cases hd
+        · cases hd
+          have hdrop : (CcyAmt.ser ⟨ccy, d⟩).drop 3 = formatAmount d.normalize (currencyDecimals ccy) := by
+            unfold CcyAmt.ser
+            rw [← hcl]; simp
+          rw [hdrop]
+          exact written_amount_is_the_same_number _ _ _ hp
+      · cases hd
+    · cases h
+    · cases h
+  · cases h
+  · cases h
 
 end SwiftMT.Props.C06
